@@ -115,12 +115,64 @@ Proof.
   destruct H as (_ & _ & SD & r & -> & (A & B & C)). exists r. auto.
 Qed.
 
-Lemma no_internal_error : forall E s e t, Inv E s ->
-  Z.max min_time_wait min_time_update <= t -> t <> 0 -> valid E e = true ->
+(* The documented API preconditions, as a boolean: internal_error is thrown exactly when they fail. *)
+Definition scheduled_here (s : state) (e : nat) : bool :=
+  match handle_of s e with Some _ => true | None => false end.
+Definition time_ok (lo t : Z) : bool := negb (t =? 0) && negb (t <? lo).   (* nonzero and >= 365 days *)
+Definition wait_pre (E : env) (s : state) (e : nat) (t : Z) : bool :=
+  time_ok min_time_wait t && valid E e               (* slot set *)
+  && negb (scheduled_here s e) && negb (foreign E e). (* not scheduled, here or elsewhere *)
+Definition update_pre (E : env) (s : state) (e : nat) (t : Z) : bool :=
+  time_ok min_time_update t && valid E e
+  && (scheduled_here s e || negb (foreign E e)).      (* not scheduled in another scheduler *)
+Definition api_pre (E : env) (s : state) (b : bop) : bool :=
+  match b with
+  | WaitUntil e t => wait_pre E s e t
+  | WaitFor e dt => negb (dt >? max_for Params.sched_max_years_wait_for) && wait_pre E s e (now s + dt)
+  | WaitForCeil e dt => negb (dt >? max_for Params.sched_max_years_wait_for_ceil) && wait_pre E s e (ceil_seconds (now s + dt))
+  | UpdUntil e t => update_pre E s e t
+  | UpdFor e dt => negb (dt >? max_for Params.sched_max_years_update_for) && update_pre E s e (now s + dt)
+  | UpdForCeil e dt => negb (dt >? max_for Params.sched_max_years_update_for_ceil) && update_pre E s e (ceil_seconds (now s + dt))
+  | Erase e => if scheduled_here s e then valid E e else negb (foreign E e)
+  | NextTimeout _ => true
+  | SetNow _ => true
+  end.
+
+Lemma wait_until_err_iff : forall E s e t, snd (wait_until E s e t) = OErr <-> wait_pre E s e t = false.
+Proof.
+  intros. unfold wait_until, wait_pre, time_ok, scheduled_here.
+  destruct (t =? 0), (t <? min_time_wait), (valid E e), (handle_of s e), (foreign E e); simpl;
+    split; intros; congruence.
+Qed.
+
+Lemma update_wait_until_err_iff : forall E s e t, snd (update_wait_until E s e t) = OErr <-> update_pre E s e t = false.
+Proof.
+  intros. unfold update_wait_until, update_pre, time_ok, scheduled_here.
+  destruct (t =? 0), (t <? min_time_update), (valid E e), (handle_of s e), (foreign E e); simpl;
+    split; intros; congruence.
+Qed.
+
+Lemma internal_error_iff : forall E s b, snd (exec_basic E s b) = OErr <-> api_pre E s b = false.
+Proof.
+  intros E s b. destruct b; simpl.
+  - apply wait_until_err_iff.
+  - destruct (dt >? _); simpl; [split; auto|apply wait_until_err_iff].
+  - destruct (dt >? _); simpl; [split; auto|apply wait_until_err_iff].
+  - apply update_wait_until_err_iff.
+  - destruct (dt >? _); simpl; [split; auto|apply update_wait_until_err_iff].
+  - destruct (dt >? _); simpl; [split; auto|apply update_wait_until_err_iff].
+  - unfold erase, scheduled_here. destruct (handle_of s e), (valid E e), (foreign E e); simpl; split; intros; congruence.
+  - unfold next_timeout. destruct (pop_while _ _ _); simpl; [split; intros; discriminate|].
+    destruct (_ >=? _); simpl; split; intros; discriminate.
+  - split; intros; discriminate.
+Qed.
+
+Lemma no_internal_error : forall E s e t,
+  Z.max min_time_wait min_time_update <= t -> t <> 0 -> valid E e = true -> foreign E e = false ->
   (handle_of s e = None -> snd (exec_basic E s (WaitUntil e t)) = OOk) /\
   snd (exec_basic E s (UpdUntil e t)) = OOk /\ snd (exec_basic E s (Erase e)) = OOk.
 Proof.
-  intros E s e t I Ht H0 V. simpl. unfold wait_until, update_wait_until, erase. rewrite V. simpl.
+  intros E s e t Ht H0 V F. simpl. unfold wait_until, update_wait_until, erase. rewrite V, F. simpl.
   destruct (Z.eqb_spec t 0); [contradiction|].
   destruct (Z.ltb_spec t min_time_wait); [lia|].
   destruct (Z.ltb_spec t min_time_update); [lia|].
@@ -185,6 +237,44 @@ Proof.
   apply ceil_seconds_round. apply ceil_seconds_pos_inv. auto.
 Qed.
 
+(* two schedulers: both sides keep their invariant for every op list *)
+Lemma inv_env : forall E E' s, (forall e, valid E e = valid E' e) -> Inv E s -> Inv E' s.
+Proof.
+  intros E E' s Hv I. destruct I. constructor; auto.
+  intros e He. apply inv_len. rewrite Hv. auto.
+Qed.
+
+Lemma step_inv : forall E s o s' evs, Inv E s -> step E s o = (s', evs) -> Inv E s'.
+Proof.
+  intros E s o s' evs I H.
+  pose proof (run_refines E [o] s s' [evs] I) as X. simpl in X. rewrite H in X.
+  apply X. reflexivity.
+Qed.
+
+Lemma run2_inv_gen : forall E ops st st' outs, Inv E (fst st) -> Inv E (snd st) ->
+  run2 E st ops = (st', outs) -> Inv E (fst st') /\ Inv E (snd st').
+Proof.
+  induction ops as [|o r IH]; simpl; intros st st' outs IA IB H.
+  - inversion H; subst. auto.
+  - destruct st as [sA sB]. simpl in IA, IB. unfold step2 in H.
+    destruct o as [o|b].
+    + destruct (step (with_foreign E (sched_mask sB)) sA o) as [sA' evs] eqn:S.
+      destruct (run2 E (sA', sB) r) as [st2 ls] eqn:R. inversion H; subst.
+      apply step_inv in S; [|eapply inv_env; [|exact IA]; reflexivity].
+      eapply IH; [| |exact R]; simpl; auto. eapply inv_env; [|exact S]. reflexivity.
+    + destruct (exec_basic (with_foreign E (sched_mask sA)) sB b) as [sB' o'] eqn:S.
+      destruct (run2 E (sA, sB') r) as [st2 ls] eqn:R. inversion H; subst.
+      apply exec_basic_spec in S; [|eapply inv_env; [|exact IB]; reflexivity]. destruct S as (S & _).
+      eapply IH; [| |exact R]; simpl; auto. eapply inv_env; [|exact S]. reflexivity.
+Qed.
+
+Lemma run2_inv : forall E n ops sA sB outs, wf_env E n ->
+  run2 E (init n, init n) ops = ((sA, sB), outs) -> Inv E sA /\ Inv E sB.
+Proof.
+  intros E n ops sA sB outs W H.
+  apply (run2_inv_gen E ops (init n, init n) (sA, sB) outs); auto; simpl; apply init_inv; auto.
+Qed.
+
 (* constants re-extracted from scheduler.cc *)
 Definition params_ok : bool :=
   (0 <? Params.sched_min_days_wait) && (Params.sched_min_days_wait =? Params.sched_min_days_update) &&
@@ -198,7 +288,7 @@ Proof. vm_compute. repeat split; reflexivity. Qed.
 
 (* ------------------------------------------------------------------ non-vacuity examples *)
 Definition B : Z := 31536000000000.
-Definition exE : env := mkEnv [[Erase 1%nat; UpdUntil 0%nat (B + 9)]; []; [NextTimeout 5]] [true; true; true] 8.
+Definition exE : env := mkEnv [[Erase 1%nat; UpdUntil 0%nat (B + 9)]; []; [NextTimeout 5]] [true; true; true] 8 [].
 Definition exOps : list op :=
   [Basic (WaitUntil 0%nat (B + 3)); Basic (WaitUntil 1%nat (B + 3)); Basic (WaitUntil 2%nat (B + 3));
    Basic (SetNow (B + 3)); Perform (B + 3); Basic (NextTimeout 100); Perform (B + 8)].
@@ -236,7 +326,7 @@ Qed.
 
 (* a timer that becomes due while call_events is busy (clock B+1 -> B+301) fires in the same
    iteration; the next poll timeout is measured from the refreshed clock: 1000 - 301 = 699 *)
-Definition exE2 : env := mkEnv [[]; [UpdFor 0%nat 5]] [true; true] 8.
+Definition exE2 : env := mkEnv [[]; [UpdFor 0%nat 5]] [true; true] 8 [].
 Definition exS2 : state := fst (run exE2 (init 2) [Basic (WaitUntil 0%nat (B + 1000)); Basic (WaitUntil 1%nat (B + 50))]).
 
 Example ex_loop_hyp : Inv exE2 exS2 /\ no_setnow exE2 /\ exists s',
